@@ -128,6 +128,10 @@ class World:
         self.IH5Record = IH5Record
         self.IH5MFRecord = IH5MFRecord
         self.scratch = scratch
+        # property under check: a passive C02 observation made while another property is in
+        # focus is recorded and the run goes on, so that it cannot hide that property's own symptom
+        self.focus = None
+        self.deferred = []
         self.sut = os.path.join(scratch, "sut")
         self.refdir = os.path.join(scratch, "ref")
         self.tmp = os.path.join(scratch, "tmp")
@@ -329,21 +333,45 @@ class World:
             if got != exp or g2 != exp:
                 raise Violation("C01", "membership", f"'{p}' in record == {got} / get -> {g2}, plain tree says {exp}")
 
+    def passive(self, fn):
+        """Run a passive oracle of a property other than the one in focus: its violation is
+        recorded and the run goes on (it must not hide the focus property's own symptom)."""
+        try:
+            fn()
+        except Violation as e:
+            if self.focus is None or e.v["prop"] == self.focus:
+                raise
+            if len(self.deferred) < 3:
+                self.deferred.append(dict(e.v))
+            self.probe("foreign_observation_deferred")
+
     def check_protected(self, opdesc):
         """C02: committed files unchanged (hash) and no monitored modifying write."""
+
+        def report(v, after=None):
+            if self.focus in (None, "C02"):
+                raise v
+            if len(self.deferred) < 3:
+                self.deferred.append(dict(v.v))
+            self.probe("c02_observation_deferred")
+            if after:
+                after()
+
         for r in self.recs.values():
-            for p, h in r.protected.items():
+            for p, h in list(r.protected.items()):
                 if not os.path.exists(p):
-                    raise Violation("C02", "committed-file-removed", f"{os.path.basename(p)} vanished during {opdesc}", shape="removed")
-                if sha_file(p) != h:
-                    raise Violation("C02", "committed-bytes-changed", f"{os.path.basename(p)} changed during {opdesc}", shape="hash")
+                    report(Violation("C02", "committed-file-removed", f"{os.path.basename(p)} vanished during {opdesc}", shape="removed"), lambda: r.protected.pop(p, None))
+                    continue
+                h2 = sha_file(p)
+                if h2 != h:
+                    report(Violation("C02", "committed-bytes-changed", f"{os.path.basename(p)} changed during {opdesc}", shape="hash"), lambda: r.protected.__setitem__(p, h2))
         if self.monitor:
             for ev in self.sh.drain():
                 if ev[0] == "CALL":
                     self.call_events.append(ev)
                     continue
                 if ev[0] == "MODIFY":
-                    raise Violation("C02", "modifying-write", f"{ev[1]} on committed {os.path.basename(ev[2])} (off {ev[3]} len {ev[4]}) during {opdesc}", shape=ev[1])
+                    report(Violation("C02", "modifying-write", f"{ev[1]} on committed {os.path.basename(ev[2])} (off {ev[3]} len {ev[4]}) during {opdesc}", shape=ev[1]))
                 if ev[0] == "REWRITE":
                     self.probe("identical_rewrite_of_committed")
 
@@ -424,9 +452,9 @@ class World:
             if r.cls != "mf":
                 r.cls = "mf"  # committing through IH5MFRecord turns it into a manifest record
             if opened:
-                self.check_manifest(r, shape_only=shape_only)
+                self.passive(lambda: self.check_manifest(r, shape_only=shape_only))
             else:
-                self.check_manifest_closed(r)
+                self.passive(lambda: self.check_manifest_closed(r))
         else:
             r.exts = None  # committed without manifest: the chain of manifests is interrupted
         self.check_merge_descendants(r)
@@ -1372,6 +1400,8 @@ class IH5StoreEngine:
                     mode = g.choice(["w", "a", "x", "w-"] if profile != "restart" else MODES)
                 else:
                     mode = g.choice(["r+", "a", "r+", "a", "r"] if profile != "restart" else MODES)
+                    if profile != "restart" and g.random() < 0.07:
+                        mode = g.choice(["x", "w-"])  # exclusive creation over an existing record must refuse and leave it alone
             op = {"op": "open", "rec": i, "mode": mode, "by": by or ("list" if s["exists"] and g.random() < 0.35 else "name")}
             if g.random() < 0.7:
                 op["perm"] = g.randrange(1000)
@@ -1528,8 +1558,12 @@ class IH5StoreEngine:
                     cfg["classes"][str(t)] = cfg["classes"][str(i)]
                     emit({"op": "merge", "rec": i, "target": t})
                 elif c < 0.9:
-                    # lifecycle calls that must be refused
-                    g.choice([do_commit, do_create_patch, do_discard])(i)
+                    # lifecycle calls that are (mostly) refused; then often a restart, which must
+                    # find the files as the last successful call left them
+                    g.choice([do_commit, do_commit, do_create_patch, do_discard])(i)
+                    if g.random() < 0.4:
+                        do_close(i, commit=g.random() < 0.5)
+                        do_open(i)
                 else:
                     do_close(i, commit=False)
                     do_open(i, mode=g.choice(["r", "r+", "a"]))
@@ -1618,6 +1652,7 @@ class IH5StoreEngine:
     def execute(self, case, scratch):
         cfg = case.get("cfg", {})
         w = World(scratch, cfg, case.get("tag", "replay"))
+        w.focus = case.get("prop")
         viol = []
         log = []
         try:
@@ -1646,6 +1681,8 @@ class IH5StoreEngine:
                 viol.append(v)
         finally:
             w.shutdown()
+        for v in w.deferred:
+            viol.append(dict(v, step=len(log)))
         kinds = [o["op"] for o in case["ops"]]
         layout = sorted((r.name, r.cls, len(r.disk), r.ncommitted()) for r in w.recs.values())
         sig = hashlib.sha256(json.dumps([kinds, layout]).encode()).hexdigest()[:16]
